@@ -69,10 +69,36 @@ class _Plain(Domain):
     PRIM = lifecycle.LifeDomain.PRIMITIVES | {'remove_processor',
                                               'remove_component'}
 
+    def decide(self, st, sym, node):
+        from dlint.walk import fold_truth
+        n = sym.node
+        # a module-level name bound to a non-None value is not None
+        if isinstance(n, ast.Compare) and len(n.ops) == 1 and isinstance(
+                n.ops[0], ast.Is) and isinstance(
+                    n.comparators[0], ast.Constant) \
+                and n.comparators[0].value is None and isinstance(
+                    n.left, ast.Name):
+            for m in self.program.modules.values():
+                for stt in m.tree.body:
+                    if isinstance(stt, ast.Assign) and any(
+                            isinstance(t, ast.Name) and t.id == n.left.id
+                            for t in stt.targets) and not (
+                                isinstance(stt.value, ast.Constant)
+                                and stt.value.value is None):
+                        return False
+        return fold_truth(n)
+
     def resolve_call(self, st, call, walker):
         r = walker.default_resolve(st, call)
         if r is None:
-            return walker.resolve_helper(st, call)
+            h = walker.resolve_helper(st, call)
+            if h is not None:
+                return h
+            m = walker.resolve_module_func(st, call)
+            if m is not None and m[0].module.name.endswith('.bisect') \
+                    and not m[0].name.startswith('bisect'):
+                return m        # insort / insort_right / their helpers
+            return None
         if r[0].name in self.PRIM:
             return None
         return r
@@ -100,6 +126,7 @@ def check_add_processor(program, rep):
     late_replace = []
     world_late = []
     world_early = []
+    searches = []
     keys = set()
     insorts = 0
     stores = 0
@@ -115,17 +142,19 @@ def check_add_processor(program, rep):
             if e.kind == 'call':
                 d = dotted(e.sym.node.func) if isinstance(
                     e.sym.node, ast.Call) else None
-                if d and d.split('.')[-1] in ('insort', 'insort_right',
-                                              'insort_left') and i_ins is None:
+                if d == 'self._sorted_processors.insert' and i_ins is None:
                     i_ins = i
                     insorts += 1
                     cn = e.sym.node
-                    k = [x for x in cn.keywords if x.arg == 'key']
-                    keys.add(norm(k[0].value) if k else None)
-                    if not (len(cn.args) >= 2 and norm(cn.args[0])
-                            == 'self._sorted_processors'
-                            and norm(cn.args[1]) == proc):
+                    idx = cn.args[0] if cn.args else None
+                    searches.append((idx, e))
+                    if not (len(cn.args) == 2 and norm(cn.args[1]) == proc):
                         keys.add('BAD-ARGS:' + norm(cn))
+                    if isinstance(idx, ast.Call):
+                        k = [x for x in idx.keywords if x.arg == 'key']
+                        keys.add(norm(k[0].value) if k else None)
+                    else:
+                        keys.add('BAD-INDEX:' + norm(cn))
                 if d == 'self.remove_processor' and i_rep is None:
                     i_rep = i
                 if d == 'self.dispatch' or (isinstance(
@@ -232,6 +261,38 @@ def check_add_processor(program, rep):
               f'sorted insertion with key {bad[0] if bad else None}: the '
               'execution list is not ordered by priority',
               line=f.node.lineno)
+    # the index comes from the upper-bound search of desper/bisect.py on the
+    # list itself, for key(processor)
+    sbad = None
+    for idx, e in searches:
+        if not isinstance(idx, ast.Call):
+            sbad = (e, 'the insertion index is not the result of a search')
+            continue
+        fnm = dotted(idx.func) or ''
+        r = program.lookup(e.frame_func.module, fnm)
+        target = r[1] if r and r[0] == 'func' else None
+        SEARCH_FUNCS.append(target)
+        a = [norm(x) for x in idx.args]
+        kk = [x for x in idx.keywords if x.arg == 'key']
+        ktext = norm(kk[0].value) if kk else None
+        okkey = a[1:2] in ([f'{proc}.priority'], [f'({ktext})({proc})'],
+                           [f'{ktext}({proc})'])
+        if target is None or target.name != 'bisect_right' \
+                or not target.module.name.endswith('.bisect'):
+            sbad = (e, f'the insertion point is searched with {fnm}, not the '
+                    'upper-bound search bisect_right: processors of equal '
+                    'priority are not kept in insertion order')
+        elif a[:1] != ['self._sorted_processors'] or not okkey:
+            sbad = (e, f'the search is made on ({", ".join(a)}): it must '
+                    'search the execution list for the priority of the new '
+                    'processor')
+    rep.check(sbad is None and bool(searches), 'C07.stable', site,
+              sbad[0].node if sbad else 'insert at bisect_right(list, '
+              'priority)', 'the processor is inserted at the upper bound of '
+              'its priority in the execution list (after equal priorities)',
+              sbad[1] if sbad else 'no sorted insertion found',
+              line=getattr(sbad[0].node, 'lineno', None) if sbad
+              else f.node.lineno)
     rep.check(not world_late, 'C07.protocol', site,
               world_late[0] if world_late else f'{proc}.world = self',
               'the processor knows its world on every path, before on_add',
@@ -250,8 +311,9 @@ def check_add_processor(program, rep):
     both = True
     for ex in exits:
         has_ins = any(e.kind == 'call' and isinstance(e.sym.node, ast.Call)
-                      and (dotted(e.sym.node.func) or '').split('.')[-1]
-                      in ('insort', 'insort_right') for e in ex.state.trace)
+                      and dotted(e.sym.node.func)
+                      == 'self._sorted_processors.insert'
+                      for e in ex.state.trace)
         has_tab = any(e.kind == 'store' and e.target is not None
                       and e.target.text.startswith('self._processors[')
                       for e in ex.state.trace)
@@ -275,7 +337,22 @@ def _is_prio_lambda(text):
             and n.body.value.id == n.args.args[0].arg)
 
 
+SEARCH_FUNCS = []
+
+
 def check_bisect(program, rep):
+    fns = [x for x in SEARCH_FUNCS if x is not None
+           and x.name == 'bisect_right']
+    if fns:
+        check_upper_bound(fns[0], rep)
+    else:
+        br = program.lookup(program.cls('World').module, 'bisect.bisect_right')
+        if br and br[0] == 'func':
+            check_upper_bound(br[1], rep)
+        else:
+            rep.inconclusive('C07.stable', 'desper/bisect.py', 'bisect_right',
+                             'not found')
+    return
     world_mod = program.cls('World').module
     r = program.lookup(world_mod, 'bisect.insort')
     if r is None or r[0] != 'func':
@@ -532,6 +609,11 @@ def check_writers(program, rep):
                           'type table', 'the execution list is filtered but '
                           'the type table keeps the entry', line=node.lineno)
             else:
+                if kind == 'insert' and f.name == 'add_processor':
+                    rep.ok('C07.writers', site, node, 'insertion at the '
+                           'searched index (validated by C07.stable)',
+                           line=node.lineno)
+                    continue
                 why = {
                     'remove': 'list.remove() compares with ==: a processor '
                               'with a value-style __eq__ makes it drop a '
@@ -545,7 +627,7 @@ def check_writers(program, rep):
                             'neither the sorted insertion nor an identity '
                             'filter')
                 rep.bad('C07.writers', site, node, why, line=node.lineno)
-    rep.floor('C07.writers', 'writers of _sorted_processors', n_w, 3)
+    rep.floor('C07.writers', 'writers of _sorted_processors', n_w, 2)
 
 
 def _order_preserving_filter(v):
@@ -580,44 +662,66 @@ def _identity_predicate(var, test):
 
 
 def check_frame(program, rep):
+    """Path based (helpers followed): one loop over the execution list, one
+    processor.process(dt) per element with the unmodified dt."""
+    world = program.cls('World')
     f = program.method('World', 'process')
     site = f.where
     dt = f.params()[1] if len(f.params()) > 1 else None
-    loops = [n for n in ast.walk(f.node) if isinstance(n, ast.For)
-             and (dotted(n.iter) or '').endswith('_sorted_processors')]
-    wrapped = [n for n in ast.walk(f.node) if isinstance(n, ast.For)
-               and '_sorted_processors' in norm(n.iter)]
-    if len(wrapped) != 1 or dt is None:
-        rep.inconclusive('C07.frame', site, f.node.name,
-                         f'{len(wrapped)} loops over the execution list')
+
+    class _FD(Domain):
+        def resolve_call(self, st, call, walker):
+            r = walker.resolve_helper(st, call, skip={
+                '_clear_dead_entities', '_delete_entity_now'})
+            return r
+
+        def for_counts(self, st, node, itersym):
+            return [1]
+    exits = [e for e in Walker(program, _FD(program)).run(f, world)
+             if e.kind != 'raise']
+    if not exits or dt is None:
+        rep.inconclusive('C07.frame', site, f.node.name, 'no path')
         return
-    lp = wrapped[0]
-    base, view = lifecycle.unwrap_iter(lp.iter)
-    order_ok = (dotted(base) or '').endswith('_sorted_processors') \
-        and 'sorted(' not in norm(lp.iter) and 'set(' not in norm(lp.iter) \
-        and 'reversed' not in norm(lp.iter)
-    rep.check(order_ok, 'C07.frame', site, lp.iter,
-              'the frame iterates the execution list in its order',
-              'the frame does not iterate the execution list in list order',
-              line=lp.lineno)
-    calls = [n for n in ast.walk(lp) if isinstance(n, ast.Call)
-             and isinstance(n.func, ast.Attribute) and n.func.attr == 'process']
-    var = norm(lp.target)
-    good = (len(calls) == 1 and norm(calls[0].func.value) == var
-            and len(calls[0].args) == 1 and norm(calls[0].args[0]) == dt
-            and not calls[0].keywords
-            and all(not isinstance(s, (ast.If, ast.While, ast.For, ast.Try,
-                                       ast.Break, ast.Continue, ast.Return))
-                    for s in lp.body))
+    bad = None
+    n_loops = 0
+    for ex in exits:
+        tr = ex.state.trace
+        items = [e for e in tr if e.kind == 'for-item'
+                 and '_sorted_processors' in e.sym.text]
+        fors = [e for e in tr if e.kind == 'for'
+                and '_sorted_processors' in e.sym.text]
+        if len(fors) != 1:
+            bad = bad or (f.node, f'{len(fors)} loops over the execution '
+                          'list in one frame')
+            continue
+        n_loops += 1
+        from rules.lifecycle import unwrap_iter
+        base, view = unwrap_iter(fors[0].sym.node)
+        if norm(base) != 'self._sorted_processors' or any(
+                w_ in fors[0].sym.text for w_ in ('sorted(', 'reversed(',
+                                                  'set(')):
+            bad = bad or (fors[0].node, 'the frame does not iterate the '
+                          'execution list in its order')
+        for it in items:
+            t = it.target.text
+            calls = [e.sym.node for e in tr if e.kind == 'call'
+                     and isinstance(e.sym.node, ast.Call)
+                     and norm(e.sym.node.func) == f'{t}.process']
+            if len(calls) != 1 or [norm(a) for a in calls[0].args] != [dt] \
+                    or calls[0].keywords:
+                bad = bad or (it.node, 'a processor is not called exactly '
+                              f'once with the dt given to process() '
+                              f'({[norm(c) for c in calls]})')
     rebound = any(isinstance(n, (ast.Assign, ast.AugAssign)) and any(
         norm(t) == dt for t in (n.targets if isinstance(n, ast.Assign)
                                 else [n.target])) for n in ast.walk(f.node))
-    rep.check(good and not rebound, 'C07.frame', site,
-              calls[0] if calls else lp,
-              'each processor is called exactly once per frame with the dt '
-              'given to process()',
-              'the loop body is not a single unconditional '
-              f'{var}.process({dt}) with the unmodified dt', line=lp.lineno)
+    rep.check(bad is None and not rebound and n_loops > 0, 'C07.frame', site,
+              bad[0] if bad else 'for processor in self._sorted_processors',
+              'each processor is called exactly once per frame, in list '
+              'order, with the dt given to process()',
+              bad[1] if bad else 'process() rebinds dt or has no loop',
+              line=getattr(bad[0], 'lineno', f.node.lineno) if bad
+              else f.node.lineno)
     g = program.method('World', 'processors')
     body = strip_docstring(g.node.body)
     ok = len(body) == 1 and isinstance(body[0], ast.Return) and norm(
@@ -632,6 +736,7 @@ def check_frame(program, rep):
 
 
 def run(program, rep, tier):
+    del SEARCH_FUNCS[:]
     check_protocol(program, rep)
     check_add_processor(program, rep)
     check_bisect(program, rep)
